@@ -67,7 +67,7 @@ def plan(tier):
                "sub|op-op", "sub|op-sum", "sub|sum-op", "sub|sum-sum", "iadd|sum+=op", "iadd|sum+=sum",
                "iadd|sum+=list", "mul|op*op", "mul|op*sum", "mul|sum*op", "mul|sum*sum", "mul|op*list", "mul|list*op",
                "mul|sum*list", "smul|left", "smul|right", "div|sum", "neg|op", "neg|sum", "Op.product", "OpSum.product",
-               "squeeze_identity", "simplify|atol=0", "simplify|atol>0", "simplify|merged", "simplify|lossy",
+               "squeeze_identity", "simplify|atol=0", "simplify|atol>0", "simplify|merged", "simplify|lossy", "simplify|small-terms-add-up-above-atol", "simplify|group-cancels-below-atol", "repeated-term",
                "check_operator_terms", "eq-routes"]
     if tier == "quick":
         return {"ncases": 3000, "min_nontrivial": 1500, "case_time_limit": 60, "required_classes": classes,
@@ -429,7 +429,29 @@ class Builder:
             return None
         if rng.random() < 0.12 and budget_terms >= 2:
             return self.cancelling_pair(siteops, forbid)
+        if rng.random() < 0.08 and budget_terms >= 2:
+            return self.repeated_term(siteops, forbid, budget_terms)
         return self.atom(siteops)
+
+    def repeated_term(self, siteops, forbid, budget_terms):
+        """The same term k times with one (often small) coefficient: merged by simplify into k*c."""
+        rng = self.rng
+        c = self.rand_factor_value(allow_complex=bool(rng.random() < 0.3))
+        if rng.random() < 0.5:
+            c = c * float(10.0 ** rng.uniform(-6, -2))
+        k = int(rng.integers(2, max(3, min(6, budget_terms) + 1)))
+        acc = self.atom(siteops, c)
+        for _ in range(k - 1):
+            twin = list(siteops)
+            if rng.random() < 0.3:
+                used = {so.site for so in siteops}
+                cands = [s for s in range(self.m.n) if s in self.m.spin or (s not in used and s not in forbid)]
+                if cands:
+                    s_ = cands[int(rng.integers(0, len(cands)))]
+                    twin.insert(int(rng.integers(0, len(twin) + 1)), self.m.identity[s_])
+            acc = self.binary("add", acc, self.atom(twin, c))
+        self.ctx.cls("repeated-term")
+        return acc
 
     def atom(self, siteops, factor=None):
         rng, m, ctx = self.rng, self.m, self.ctx
@@ -653,6 +675,12 @@ class Builder:
             res = self.lib(what, lambda: xv.simplify())
         else:
             atol = float(rng.choice([0.0, 1e-12, 1e-6, 1e-3, 0.1, 1.0])) if r < 0.7 else float(10.0 ** rng.uniform(-14, 1))
+            if len(xv) and rng.random() < 0.45:
+                # a tolerance a little above the coefficient of one of the terms: that term alone is "zero", two of them are not
+                f0 = abs(complex(xv[int(rng.integers(0, len(xv)))].factor))
+                if f0 > 0:
+                    atol = float(f0 * rng.uniform(1.05, 1.9))
+                    ctx.cls("simplify|atol-just-above-a-coefficient")
             what = "simplify|atol=0" if atol == 0 else "simplify|atol>0"
             expr = f"{xe}.simplify(atol={atol!r})"
             res = self.lib(what, lambda: xv.simplify(atol=atol))
@@ -662,6 +690,42 @@ class Builder:
         extra = len(xv) * atol * max_unit
         n_before = len(xv)
         val = self.finish(what, res, X.D, X.T, X.R, X.B, [X], expr, X.bins, extra_tol=extra)
+        # the documented result, term by term: "group same terms by adding them together, and finally remove terms close to
+        # zero" - groups are the terms that agree in their non-identity (symbol, DoF) words in order
+        # (a pure identity is kept as 'I' on its first DoF - the documented result of squeeze_identity - so constants written on
+        # different DoFs are different terms)
+        def key_of(t):
+            words = [(w, repr(d)) for w, d in zip(t.split_symbol, t.dofs) if w != "I"]
+            return tuple(words) if words else (("I", repr(t.dofs[0])),)
+        groups = {}
+        members = {}
+        for t in xv:
+            key = key_of(t)
+            g = groups.setdefault(key, [0j, t])
+            g[0] += complex(t.factor)
+            members.setdefault(key, []).append(abs(complex(t.factor)))
+        doc = np.zeros_like(X.D)
+        amb = 0.0
+        for key, (c, t0) in groups.items():
+            u, nu = m.unit(t0)
+            if abs(abs(c) - atol) <= 1e-9 * max(atol, abs(c)):
+                amb += abs(c) * nu       # on the edge of the tolerance: either decision is fine
+                doc = doc + 0.5 * c * u
+                amb -= 0.5 * abs(c) * nu
+            elif abs(c) > atol:
+                doc = doc + c * u
+        if any(0 < abs(c) <= atol < sum(members[key]) for key, (c, _t) in groups.items()):
+            ctx.cls("simplify|group-cancels-below-atol")
+        if atol > 0 and any(abs(c) > atol and max(members[key]) <= atol for key, (c, _t) in groups.items()):
+            ctx.cls("simplify|small-terms-add-up-above-atol")
+        ctx.count("oracle")
+        ctx.count("simplify_exact_checks")
+        dd = float(np.linalg.norm(val.D - doc))
+        if dd > 1e-10 * max(X.T, 1e-300) + amb:
+            ctx.violate(what + "|differs-from-documented-grouping-then-thresholding", err=dd, atol=atol, expr=expr,
+                        groups=[[list(k), complex(c)] for k, (c, _t) in list(groups.items())[:8]],
+                        result=[str(t) for t in terms_of(res)[:8]])
+            raise CaseAbort()
         if len(res) < n_before:
             ctx.cls("simplify|merged")
         dev = float(np.linalg.norm(val.D - X.D))
